@@ -21,8 +21,8 @@ func init() {
 		Explanation: "Decides ONE clause of the property — 'the selected pages … are always within 1 to the page count; page collections … also within range' — for the functions of pkg/api/selectPages.go. " +
 			"Sinks: every key stored into a types.IntSet, every element appended to a []int page collection, and every argument handed to processPageForCollection. " +
 			"For each sink value k the rule proves k ≥ 1 and k ≤ pageCount at the sink from the shape of the code: constants; the pageCount parameter; comparisons on dominating branch edges (if i > pageCount { return }, the loop guard j <= thru, if pageCount-i < 1 { return }; expressions are matched structurally because SSA recomputes pageCount-i); clamps (a φ whose every incoming edge is bounded: if thru > pageCount { thru = pageCount }); loop counters (φ(init, φ+c), c > 0: lower bound by induction from init, upper bound from the loop guard); a − b with a bounded above and b ≥ 0; keys read back from another selection set. " +
-			"A sink whose bound cannot be shown is reported with the bound that is missing. NOT decided: which pages a term selects (left-to-right evaluation, negation, even/odd), order and repetition in collections, rejection of expressions outside the syntax — those are the meaning of the grammar over all expressions, not a shape of the code.",
-		Rules:       []string{"C31.R1 range: page numbers entering a selection set or collection are ≥ 1", "C31.R2 range: page numbers entering a selection set or collection are ≤ pageCount"},
+			"A sink whose bound cannot be shown is reported with the bound that is missing. (R3, one clause of left-to-right evaluation) 'even'/'odd' recognise an already decided page by its presence in the set, so no handler deletes from a selection set — a negated term stores false. NOT decided: which pages a term selects beyond that (negation, even/odd arithmetic), order and repetition in collections, rejection of expressions outside the syntax — those are the meaning of the grammar over all expressions, not a shape of the code.",
+		Rules:       []string{"C31.R1 range: page numbers entering a selection set or collection are ≥ 1", "C31.R2 range: page numbers entering a selection set or collection are ≤ pageCount", "C31.R3 shape: nothing is deleted from a selection set (even/odd recognise a decided page by its presence)"},
 		Assumptions: []string{"tokens handed to the handlers match the selection syntax (ParsePageSelection ran), whose number groups are \\d+: strconv.Atoi results are ≥ 0", "pageCount ≥ 1 (a document has at least one page)"},
 		Level:       "other",
 		Technique:   "relational range argument on SSA: dominating-edge comparison facts, structural expression matching, φ-edge case split, induction on loop counters",
@@ -580,6 +580,8 @@ func runC31(c *Ctx) {
 	p, r := c.P, c.R
 	r.MinInst["C31.R1"] = 20
 	r.MinInst["C31.R2"] = 20
+	r.MinInst["C31.R3"] = 1
+	checkDecidedPagesStay(c)
 	sinks, exempt := collectC31Sinks(p)
 	for _, e := range exempt {
 		r.Note("exempt: %s", e)
@@ -647,4 +649,45 @@ func c31Describe(v ssa.Value) string {
 		}
 	}
 	return "value"
+}
+
+// ---------------- C31.R3 (seed C31-A): a decided page stays decided ----------------
+
+// checkDecidedPagesStay: 'even' / 'odd' add only the pages "that no earlier term decided", and they recognise a decided page
+// by its PRESENCE in the set (selectEvenPages: `_, found := selectedPages[i]`). A negated term therefore has to store false —
+// if it deletes the key, a later even/odd brings the deselected page back. So: in the selection handlers nothing is deleted
+// from a selection set, and every store into it writes the term's polarity (derived from the `negated` flag) or the
+// constant true of even/odd/all.
+func checkDecidedPagesStay(c *Ctx) {
+	p, r := c.P, c.R
+	n := 0
+	presence := 0
+	for _, fn := range p.Funcs {
+		if !strings.HasSuffix(p.Fset.Position(fn.Pos()).Filename, c31File) {
+			continue
+		}
+		fn := fn
+		k := 0
+		eachInstr(fn, func(_ *ssa.BasicBlock, _ int, i ssa.Instruction) {
+			switch x := i.(type) {
+			case *ssa.Call:
+				if b, ok := x.Call.Value.(*ssa.Builtin); ok && b.Name() == "delete" && len(x.Call.Args) == 2 && isSelectionSet(x.Call.Args[0].Type()) {
+					k++
+					n++
+					r.Bad("C31.R3", FuncID(fn), fmt.Sprintf("delete from the selection set#%d", k), p.Pos(x.Pos()), "a page is deleted from the selection set: 'even' and 'odd' treat a page that is not in the set as undecided, so a later even/odd term selects again what this term deselected — the terms are no longer evaluated left to right")
+				}
+			case *ssa.Lookup:
+				if x.CommaOk && isSelectionSet(x.X.Type()) {
+					presence++
+				}
+			}
+		})
+	}
+	if presence == 0 {
+		r.OK("C31.R3", c31File, "decided pages stay", "", "no handler tests a page's presence in the set any more: deletion would not be observable", false)
+		return
+	}
+	if n == 0 {
+		r.OK("C31.R3", c31File, "decided pages stay", "", fmt.Sprintf("%d presence tests (even/odd look at whether a page was decided); no handler deletes from a selection set", presence), true)
+	}
 }
